@@ -339,24 +339,7 @@ pub open spec fn lxd_attrdesc(i: Seq<u8>) -> Option<int> {
 }
 // assertion value: every byte other than NUL ( ) * up to the first of those; `\` + two hex digits stands for that byte;
 // an incomplete or non-hex escape is an error
-pub open spec fn hexval(c: u8) -> Option<u8> {
-    if 0x30 <= c <= 0x39 { Some((c - 0x30) as u8) } else if 0x61 <= c <= 0x66 { Some((c - 0x61 + 10) as u8) } else if 0x41 <= c <= 0x46 { Some((c - 0x41 + 10) as u8) } else { None }
-}
-//@item file=src/filter.rs kind=enum name=Unescaper
-pub open spec fn wf_un(u: Unescaper) -> bool { u matches Unescaper::WantSecond(p) ==> p < 16 }
-pub open spec fn feed_spec(u: Unescaper, c: u8) -> Unescaper {
-    match u {
-        Unescaper::Error => Unescaper::Error,
-        Unescaper::WantFirst => match hexval(c) { Some(h) => Unescaper::WantSecond(h), None => Unescaper::Error },
-        Unescaper::WantSecond(p) => match hexval(c) { Some(h) => Unescaper::Value((p * 16 + h) as u8), None => Unescaper::Error },
-        Unescaper::Value(_) => if c == 0x5c { Unescaper::WantFirst } else { Unescaper::Value(c) },
-    }
-}
-impl Unescaper {
-    // KX-escape::feed_table_complete (Kani on the real code: every state x byte, partial < 16) -- the same table
-    #[verifier::external_body]
-    pub fn feed(&self, c: u8) -> (r: Unescaper) ensures wf_un(*self) ==> r == feed_spec(*self, c) && wf_un(r) { unimplemented!() }
-}
+//@include contracts/shared/unescaper_spec.rs
 pub open spec fn value_char(c: u8) -> bool { !(c == 0 || c == 0x28 || c == 0x29 || c == 0x2a) }
 pub open spec fn scan(i: Seq<u8>, st: Unescaper, acc: Seq<u8>) -> (int, Unescaper, Seq<u8>) decreases i.len() {
     if i.len() > 0 && value_char(i[0]) {
